@@ -20,3 +20,6 @@ import QRV.Props.C15
 import QRV.Props.C16
 import QRV.Props.C17
 import QRV.Props.C18
+import QRV.Props.C03QR
+import QRV.Props.C08Ext
+import QRV.Props.C06RMQR
